@@ -407,5 +407,12 @@ def stages(tier):
                  budget_s={"quick": 60, "thorough": 600}),
         FuzzStage("fuzz", "C03", [("raw", False), ("raw", True), ("hyp", False), ("raw", True)],
                   {"quick": 4000, "thorough": 50000}, run_case, fuzz_to_case, fuzz_seeds,
-                  budget_s={"quick": 45, "thorough": 600}, max_len=4096),
+                  budget_s={"quick": 45, "thorough": 600}, max_len=4096,
+                  tokens=['"command"', '"version"', '"keyId"', '"message"', '"auth"', '"hash"',
+                          '"tx"', '"input"', '"blocks"', '"brothers"', '"udValue"', '"sign"',
+                          '"getPubKey"', '"advanceBlockchain"', '"updateAncestorBlock"',
+                          '"receipt_merkle_proof"', '"receipt"', '"witnessScript"',
+                          '"outpointValue"', '"sighashComputationMode"', '"segwit"', '"legacy"',
+                          "m/44'/0'/0'/0/0", ":5", "[]", "{}", "true", "null", "-1",
+                          "4294967296"]),
     ]
